@@ -269,9 +269,7 @@ def mvTargetIsFile (t : Node) (dst : P) : Bool :=
 /-- where a FILE source ends up -/
 def mvTarget (t : Node) (src dst : P) : List Str :=
   if mvTargetIsFile t dst then dst.comps
-  else dst.comps ++ (match src.comps.getLast? with
-                     | some b => [b]
-                     | none => [])
+  else dst.comps ++ src.comps.getLast?.toList
 
 def mv (t : Node) (src dst : P) : Node × Res :=
   match resolve t src with
@@ -450,5 +448,17 @@ def squeeze : Str → Str
   | c :: d :: r => if c = '/' && d = '/' then squeeze (d :: r) else c :: squeeze (d :: r)
 
 def joinPath (args : List Str) : Str := squeeze (joinSlash args)
+
+/-- the text contains `//` -/
+def hasDouble : Str → Bool
+  | [] => false
+  | [_] => false
+  | c :: d :: r => (c = '/' && d = '/') || hasDouble (d :: r)
+
+/-- a normal file name: not empty, no separator, not `.` or `..` -/
+def PlainName (b : Str) : Prop := b ≠ [] ∧ '/' ∉ b ∧ b ≠ ['.'] ∧ b ≠ ['.', '.']
+
+/-- the last segment of `d` is a normal one (`d` does not end in a separator or in `/.`) -/
+def CleanEnd (d : Str) : Prop := ∀ x, (splitSlash d).getLast? = some x → isJunk x = false
 
 end Duck.FsTree
